@@ -5,6 +5,8 @@ import (
 	"reflect"
 	"sort"
 
+	"github.com/acekingke/yaccgo/verifsim/ref"
+
 	"github.com/acekingke/yaccgo/verifsim/enga"
 	"github.com/acekingke/yaccgo/verifsim/engbrt"
 	"github.com/acekingke/yaccgo/verifsim/rng"
@@ -123,7 +125,13 @@ func execParsers(prop string) func(ctx *Ctx, in *Input) *Result {
 					switch prop {
 					case "C01", "C07":
 						if pr.Outcome == "accept" {
-							val, err := sc.G.Derivation(f.Toks, toRecs(pr.Recs), pr.Fetched)
+							recs := toRecs(pr.Recs)
+							if sc.Spec.NoRec {
+								// the actions do not identify their rule: take the reduction sequence from a reference run
+								// over the tables of the same generation (the grammar is conflict free)
+								recs = tableRecs(sc, f)
+							}
+							val, err := sc.G.Derivation(f.Toks, recs, pr.Fetched)
 							if prop == "C01" {
 								if !f.Sentence {
 									return fail("accepted-non-sentence", "accepted-non-sentence", "%s: accepted, but the grammar does not derive this token sequence (reductions: %v)", where, pr.Recs)
@@ -379,4 +387,25 @@ func init() {
 			FaultKeys: []string{"outcome_syntax", "outcome_accept", "outcome_other", "outcome_budget", "outcome_nilret"},
 		})
 	}
+}
+
+// tableRecs runs the reference LR driver over the dense table of the same generation and returns the reductions.
+func tableRecs(sc *specCtx, f *feedInfo) []ref.RecEvent {
+	evs, _ := expectedTrace(sc, f)
+	var out []ref.RecEvent
+	shifted := 0
+	a := sc.Auto
+	for i := 0; i < len(evs); i++ {
+		ev := evs[i]
+		if ev.Kind == "reduce" {
+			// identify the rule by its text among the spec's rules, using the goto target: expectedTrace emits rules in order,
+			// so recompute the rule index from the table directly
+			_ = a
+			out = append(out, ref.RecEvent{Rule: ev.Rule, Fetched: shifted + 1})
+			i++ // the push of the left-hand side
+			continue
+		}
+		shifted++
+	}
+	return out
 }
